@@ -103,6 +103,9 @@ func inRepo(fn *ssa.Function) bool {
 func (fr *FnRun) callStatic(st *State, site ssa.Instruction, fn *ssa.Function, args []Val, depth int, k callK) {
 	ex := fr.ex
 	key := FuncKey(fn)
+	if fr.intrinsic(st, site, key, args, k) {
+		return
+	}
 	ctr := ex.DB.Contracts[key]
 	if ctr != nil && ctr.Flags["inline"] == "" {
 		fr.applyContract(st, site, ctr, fn, fn.Signature, args, k)
